@@ -1,6 +1,7 @@
 package plush
 
 import (
+	"errors"
 	"fmt"
 	"strings"
 
@@ -48,21 +49,40 @@ func (h HelperContext) BlockWith(hc hctx.Context) (string, error) {
 		return "", fmt.Errorf("expected *Context, got %T", hc)
 	}
 
-	octx := h.compiler.ctx
-	defer func() { h.compiler.ctx = octx }()
-	h.compiler.ctx = ctx
-
 	if h.block == nil {
 		return "", fmt.Errorf("no block defined")
 	}
 
-	i, err := h.compiler.evalBlockStatement(h.block)
+	// the block is evaluated by an evaluator of its own: the helper may be
+	// called again later, from another execution or from several at once (a
+	// block that contentFor stored in a context they share), when the
+	// evaluator that defined it is busy or done
+	ev := *h.compiler
+	ev.ctx = ctx
+
+	i, err := ev.evalBlockStatement(h.block)
 	if err != nil {
+		var se *stmtError
+		if !errors.As(err, &se) {
+			// the statement of the block the error is attributed to
+			err = &stmtError{stmt: ev.curStmt, err: err}
+		}
+
 		return "", err
 	}
 
 	bb := &strings.Builder{}
-	h.compiler.write(bb, i)
+	ev.write(bb, i)
 
 	return bb.String(), nil
 }
+
+// stmtError carries the statement a block's error is attributed to out of the
+// block's evaluator (see compiler.compile).
+type stmtError struct {
+	stmt ast.Statement
+	err  error
+}
+
+func (e *stmtError) Error() string { return e.err.Error() }
+func (e *stmtError) Unwrap() error { return e.err }
